@@ -226,7 +226,7 @@ class Check(CheckBase):
             "parameter record x the same menus (thorough: all 256 for sample 1, menu for the others); thorough also all byte "
             "pairs inside the multi-byte fields (size, start / fat_entry, start, sustain end, release end, cluster_top) over the "
             "menu; whole-field boundary values of the start / size / fat_entry / cluster_top / loop-point fields (table length +-1, "
-            "flag and sign bits, 0, all ones). Oracle vs the undamaged run: every other item still listed with the same printed row, its position-coded "
+            "flag and sign bits, 0, all ones) and of the NAME fields (all blanks = the empty name, all one character, all ones, cut to one character). Oracle vs the undamaged run: every other item still listed with the same printed row, its position-coded "
             "PCM complete in some exported channel (the L/R partner of a damaged item: complete when mono, a consistent prefix "
             "when merged), ls and export do not abort or hang. non-trivial = damage that changes the listing")
     assumptions = ["the L/R partner of a damaged item merged with it may be cut to the damaged half's length (C12), down to an empty file",
@@ -274,7 +274,20 @@ class Check(CheckBase):
                     cases.append({"subject": key, "entry": e, "bytes": field(20, 2, v)})
                 for v in (0, 1, 139, 140, 141, 8191, 8192, 8193, 0x7FFFFF, 0x800000, 0xFFFFFF):
                     cases.append({"subject": key, "entry": e, "bytes": field(17, 3, v)})
+        # targeted: the whole NAME field at once (all blanks -> the empty name, all '0', all 'A', all ones, and a name cut down to
+        # its first character)
+        for key in ("akai0", "akai1", "akai2"):
+            img, items, path, base = subject(key)
+            for e in range(len(items)):
+                for v in (0x0A, 0x00, 0x0B, 0x28, 0xFF):
+                    cases.append({"subject": key, "entry": e, "bytes": [[k, v] for k in range(12)]})
+                cases.append({"subject": key, "entry": e, "bytes": [[k, 0x0A] for k in range(1, 12)]})
         rcases = []
+        for e in range(3):
+            for rec in (0, 1):
+                for v in (0x20, 0x00, 0x41, 0x7F, 0xFF):
+                    rcases.append({"subject": "roland", "entry": e, "rec": rec, "bytes": [[k, v] for k in range(16)]})
+                rcases.append({"subject": "roland", "entry": e, "rec": rec, "bytes": [[k, 0x20] for k in range(1, 16)]})
         for e in range(3):
             for v in (0, 1, 0xFFF0, R.FAT_N - 11, R.FAT_N - 10, R.FAT_N - 9, 0xFFF6, 0xFFF7, 0xFFF8, 0xFFFE, 0xFFFF, 0x7FFF, 0x8000):
                 rcases.append({"subject": "roland", "entry": e, "rec": 0, "bytes": field(28, 2, v)})
